@@ -123,12 +123,17 @@ func (x *Exec) oblige(st *State, kind string, goal *Term, pos token.Pos, note st
 // ---------- typing assumptions ----------
 
 func (x *Exec) assumeType(st *State, v *Term, t types.Type) {
-	key := [2]int{v.id, st.alloc.id}
+	x.assumeTypeB(st, v, t, st.alloc)
+}
+
+// assumeTypeB: typing facts of v where every reference inside v is known to be below `bound`.
+func (x *Exec) assumeTypeB(st *State, v *Term, t types.Type, bound *Term) {
+	key := [2]int{v.id, bound.id}
 	if x.typed[key] {
 		return
 	}
 	x.typed[key] = true
-	if f := x.typeFact(st, v, t, 0); f != True {
+	if f := x.typeFact(&State{alloc: bound}, v, t, 0); f != True {
 		x.ctx.assume(st, f)
 	}
 	if _, isPtr := t.Underlying().(*types.Pointer); isPtr && !isAllocTerm(v) {
@@ -302,8 +307,9 @@ func (x *Exec) allocRef(st *State) *Term {
 func (x *Exec) readField(st *State, structT types.Type, i int, ref *Term) *Term {
 	st0 := structT.Underlying().(*types.Struct)
 	ft := st0.Field(i).Type()
-	v := x.ctx.hread(st, fieldMapName(structT, i), TE.SortOf(ft), ref)
-	x.assumeType(st, v, ft)
+	node := x.ctx.heapNode(st, fieldMapName(structT, i), TE.SortOf(ft))
+	v := node.read(ref)
+	x.assumeTypeB(st, v, ft, node.readBound(ref, x.job.alloc0))
 	return v
 }
 
@@ -338,6 +344,10 @@ func (x *Exec) elemArr(st *State, elemT types.Type, ref *Term) *Term {
 func (x *Exec) readElem(st *State, elemT types.Type, sl, idx *Term) *Term {
 	arr := x.elemArr(st, elemT, slRef(sl))
 	v := Select(arr, Add(slOff(sl), idx))
+	if !hasFreeBound(idx) && !hasFreeBound(sl) {
+		node := x.ctx.heapNode(st, arrMapName(elemT), arraySort(SInt, TE.SortOf(elemT)))
+		x.assumeTypeB(st, v, elemT, node.readBound(slRef(sl), x.job.alloc0))
+	}
 	if !hasFreeBound(idx) && !v.isConst() {
 		// ground instance of the at-function axiom: gives quantified contract clauses a term to match
 		_, es := arr.sort.arrayParts()
@@ -746,6 +756,8 @@ func (x *Exec) enterLoop(fr *Frame, lp *loop, st *State) {
 	x.checkInvariants(fr, lp, st, nil, "inv-entry")
 	// 2. havoc loop-modified state
 	bound := st.alloc
+	na := Fresh("alloc@loop", SInt)
+	x.ctx.assume(st, Ge(na, st.alloc))
 	writes := x.prog.loopWrites(fr, lp)
 	names := sortedKeys(writes)
 	for _, name := range names {
@@ -758,13 +770,11 @@ func (x *Exec) enterLoop(fr *Frame, lp *loop, st *State) {
 			}
 		}
 		if w.oldObjects {
-			x.ctx.hhavoc(st, name, vs, nil, nil, fmt.Sprintf("loop%d", lp.ordinal))
+			x.ctx.hhavoc(st, name, vs, nil, nil, fmt.Sprintf("loop%d", lp.ordinal), na)
 		} else {
-			x.ctx.hhavoc(st, name, vs, bound, nil, fmt.Sprintf("loop%d", lp.ordinal))
+			x.ctx.hhavoc(st, name, vs, bound, nil, fmt.Sprintf("loop%d", lp.ordinal), na)
 		}
 	}
-	na := Fresh("alloc@loop", SInt)
-	x.ctx.assume(st, Ge(na, st.alloc))
 	st.alloc = na
 	for _, ins := range lp.header.Instrs {
 		phi, ok := ins.(*ssa.Phi)
